@@ -51,7 +51,7 @@ func roundTrip(c *core.Ctx, s string, ascii bool, scratch []byte) {
 }
 
 func run(c *core.Ctx) {
-	c.Rule = "every byte string of length <=L (L=2 quick, 3 thorough: all 16.8e6) and every valid rune (1.1e6) alone and followed by each of a hex digit, an octal digit, a quote and a backslash is written as a text-format string literal by the real encoder with EmitASCII off and on and parsed back by the real decoder: identical bytes required, and with EmitASCII every output byte must be printable ASCII. Additionally through prototext.Marshal/Unmarshal of BytesValue / StringValue for all 1- and 2-byte strings and all runes of 8 sampled planes boundaries; and every syntactically valid unknown-field set (all sequences of <=n wire records of three types' alphabets) is rendered with EmitUnknown and Format without panic"
+	c.Rule = "every byte string of length <=L (L=2 quick, 3 thorough: all 16.8e6) and every valid rune (1.1e6) alone and followed by each of a hex digit, an octal digit, a quote and a backslash, and every string made of one of 12 boundary runes, an ASCII infix of 0, 1 or 3 letters and any one- or two-byte tail, is written as a text-format string literal by the real encoder with EmitASCII off and on and parsed back by the real decoder: identical bytes required, and with EmitASCII every output byte must be printable ASCII. Additionally through prototext.Marshal/Unmarshal of BytesValue / StringValue for all 1- and 2-byte strings and all runes of 8 sampled planes boundaries; and every syntactically valid unknown-field set (all sequences of <=n wire records of three types' alphabets) is rendered with EmitUnknown and Format without panic"
 	c.Exhaustive = true
 	var n atomic.Int64
 	L := core.Pick(c, 2, 3)
@@ -105,6 +105,34 @@ func run(c *core.Ctx) {
 		n.Add(cnt)
 	})
 	c.Bounds["runes"] = "all valid runes x suffixes"
+	// mixed strings: a valid multi-byte rune at a class boundary, an optional
+	// ASCII infix, then EVERY one- and two-byte tail (valid or not). The
+	// encoder has separate paths for ASCII runs, valid runes and invalid bytes;
+	// this family puts each transition between them next to each other.
+	heads := []string{"\u0080", "\u00a0", "\u00bf", "\u00c0", "é", "\u07ff", "\u0800", "中", "\ufffd", "\uffff", "\U00010000", "\U0010ffff"}
+	infixes := []string{"", "a", "abc"}
+	c.ParRange(0, 1<<16, 1<<8, func(lo, hi uint64) {
+		scratch := make([]byte, 0, 64)
+		var cnt int64
+		for v := lo; v < hi; v++ {
+			tails := []string{string([]byte{byte(v >> 8), byte(v)})}
+			if v < 256 {
+				tails = append(tails, string([]byte{byte(v)}))
+			}
+			for _, h := range heads {
+				for _, in := range infixes {
+					for _, t := range tails {
+						s := h + in + t
+						roundTrip(c, s, false, scratch)
+						roundTrip(c, s, true, scratch)
+						cnt += 2
+					}
+				}
+			}
+		}
+		n.Add(cnt)
+	})
+	c.Bounds["mixed_strings"] = "12 boundary runes x 3 ASCII infixes x all 1- and 2-byte tails"
 	// through prototext for bytes and string wrappers: all 1-byte and a spread of 2-byte strings, plus boundary runes
 	var pn atomic.Int64
 	c.ParRange(0, 1<<16, 1<<8, func(lo, hi uint64) {
